@@ -325,7 +325,18 @@ def compare(ctx, case, stats, rng, n_vw, with_lte=True, with_kappa=True, vws=Non
                 continue
             ctx.count("kappa", bucket="detonation" if vw > vJ2 else (
                 "hybrid" if vw > ht.cb else "deflagration"))
-            tolk = TOL_KAPPA + K_KAPPA_T * ATOL / Tn
+            # the rarefaction wave's amplitude is ~ (vw - vm) g^2: an error dvm in v- changes
+            # kappa by ~ dvm/(vw - vm) (weak detonations: vw - vm -> 0)
+            sens = 0.0
+            try:
+                kvp, kvm, kTp, kTm = (float(x) for x in ht.findMatching(vw))
+                if vw > ht.cb and math.isfinite(kTm):
+                    sens = 2 * K_MATCH / ((1 - kvp ** 2) * (1 - kvm ** 2)) * kvm / max(
+                        abs(vw - kvm), 1e-12) / min(kvp, kTp, kTm)
+            except Exception:
+                pass
+            tolk = TOL_KAPPA + K_KAPPA_T * ATOL / Tn + sens * (RTOL * min(kvp, kTp, kTm)
+                                                              + ATOL if sens else 0.0)
             stats.append(("kappa", rel(kg, kt) / tolk, dict(case=case, vw=vw)))
             if not rel(kg, kt) <= tolk:
                 # kappa computed from a matching whose 2x2 solve did not converge is a
@@ -353,13 +364,14 @@ def compare(ctx, case, stats, rng, n_vw, with_lte=True, with_kappa=True, vws=Non
                      rtol=TIGHT, atol=TIGHT)
                 continue
             ctx.count("kappa_tight")
-            stats.append(("kappa_tight", rel(kg, kt) / TOL_KAPPA_TIGHT,
-                          dict(case=case, vw=vw)))
-            if not rel(kg, kt) <= TOL_KAPPA_TIGHT:
+            tolkt = TOL_KAPPA_TIGHT + sens * (TIGHT * min(kvp, kTp, kTm) + TIGHT
+                                              if sens else 0.0)
+            stats.append(("kappa_tight", rel(kg, kt) / tolkt, dict(case=case, vw=vw)))
+            if not rel(kg, kt) <= tolkt:
                 fail("efficiency factor at vw=%.6g with rtol=atol=1e-10: general %.9g%s, "
                      "template %.9g (rel %.3g > %.3g)" % (
                          vw, kg, "" if gsucc else " (from an UNCONVERGED matching)", kt,
-                         rel(kg, kt), TOL_KAPPA_TIGHT),
+                         rel(kg, kt), tolkt),
                      SMALL if small_alpha else {
                          "ok": "kappa-tight",
                          "unconverged": "kappa-general-unconverged-matching",
@@ -588,7 +600,8 @@ def run(ctx):
         "vJ, 0.9..0.99, 0.99 and uniform; vwLTE once, efficiency factor on each branch, "
         "both at the default rtol=atol=1e-6 (tolerance %g + %g*atol/Tn: Simpson on the ODE "
         "solver's own steps limits kappa to several %%) and at rtol=atol=1e-10 (tolerance "
-        "%g); parameter "
+        "%g), each plus the sensitivity term 2*K_MATCH*(rtol+atol/scale)*g+^2 g-^2*vm/|vw-vm| "
+        "when a rarefaction wave is present; parameter "
         "sets with alN <= (1-psiN)/3 are outside the quantifier (the high-T phase has the "
         "higher pressure at Tn: no transition); tolerances: vJ %g*(rtol+atol/Tn), matching "
         "and boundaries %g*(rtol+atol/min(vp,Tp,Tm)+rtol/|Tp/Tn-1|)*gamma+^2*gamma-^2, vwLTE "
